@@ -14,7 +14,7 @@ CASE_TIMEOUT = 30
 RULE = ('A case is a history {vars, params, floats, ops}: ops add constraints built from generated expression ASTs '
         '(+ - * / ** neg abs sign exp log sin cos tan asin acos atan, reflected operators, int/float constants, '
         'if_else(inequality), ConditionalExpression with 1-4 conditions) as model attributes or ConstraintDict items, '
-        'delete them (del m.c / del m.cd[k] / del m.cd), change values (.value, load_var_values_from_x, '
+        'delete them (del m.c / del m.cd[k] / del m.cd), change values (.value, load_var_values_from_x, re-assigning the value last set through the setter after the x vector moved the variable, '
         'evaluate_*(x)), call set_structure, and define sub-expressions / Float constants that later constraints '
         'share. The history is interpreted against a real wntr.sim.aml.Model and against an own AST evaluator with '
         'forward-mode dual numbers; after every op the residual vector and the CSR Jacobian are compared entry by '
@@ -73,6 +73,7 @@ class World(object):
         self.tags = tags
         self.m = aml.Model()
         self.rv = [float(x) for x in case['vars']] or [1.0]
+        self.last_set = list(self.rv)      # value each Var last received through its constructor or its value setter
         self.rp = [float(x) for x in case['params']] or [1.0]
         self.rf = [float(x) for x in case.get('floats', [])] or [2.0]
         self.rz = []
@@ -536,7 +537,16 @@ def check(case):
                 i = op[1] % len(w.vars)
                 w.vars[i].value = float(op[2])
                 w.rv[i] = float(op[2])
+                w.last_set[i] = float(op[2])
                 tags.add('op:set_var_value')
+            elif name == 'restore_var':
+                # the value the Var last received through the setter is assigned again (restoring a starting point
+                # after the x vector / a solver has moved the variable)
+                i = op[1] % len(w.vars)
+                if w.rv[i] != w.last_set[i]:
+                    tags.add('op:restore_var_after_load_x')
+                w.vars[i].value = w.last_set[i]
+                w.rv[i] = w.last_set[i]
             elif name == 'set_param':
                 i = op[1] % len(w.params)
                 w.params[i].value = float(op[2])
@@ -683,6 +693,8 @@ def strategy(tier='quick'):
         st.tuples(st.just('set_var'), st.integers(0, NV - 1), _value).map(list),
         st.tuples(st.just('set_var'), st.integers(0, NV - 1), _value).map(list),
         st.tuples(st.just('set_param'), st.integers(0, NP - 1), _value).map(list),
+        st.tuples(st.just('restore_var'), st.integers(0, NV - 1)).map(list),
+        st.tuples(st.just('restore_var'), st.integers(0, NV - 1)).map(list),
         st.tuples(st.just('load_x'), st.integers(0, 2), st.lists(_value, min_size=1, max_size=NV)).map(list),
         st.just(['set_structure']),
     )
@@ -738,6 +750,11 @@ def enumerate_cases(tier):
         ops.append(['load_x', 1, [1.0, 1.0]])
         ops.append(['load_x', 2, [-1.0, 2.0]])
         yield _case(ops)
+    # the x vector moves the variables, then the starting values are assigned again through the setter
+    for mode in (0, 1, 2):
+        yield _case([['add', -1, ['+', ['*', x, y], p], 0, False], ['add', -1, ife, 1, False], ['set_var', 0, 0.5],
+                     ['load_x', mode, [3.0, -2.0]], ['restore_var', 0], ['restore_var', 1], ['load_x', mode, [1.5, 1.0]],
+                     ['restore_var', 1], ['restore_var', 0]])
     # two ConditionalExpressions with different numbers of branches, one removed and re-added
     yield _case([['add', -1, ce, 0, False], ['add', 0, _guarded(1, 1.0, 2.5), 1, False], ['add', -1, _guarded(2, 0.5, 0.5), 0, False],
                  ['set_var', 0, 1.5], ['set_var', 1, -3.0], ['del', 0], ['set_var', 2, 2.0], ['add', -1, ce, 0, False],
